@@ -487,6 +487,14 @@ def runCase (e : SExp) : Array String :=
           o.put "hdup" (taxS t ++ "=" ++ toString ((hs.map fun f => copiesInto t f.1 f.2).sum) ++ "," ++
             toString ((hs.map fun f => copiesInto t f.1 f.2 - eventsInto t f.1 f.2).sum))) o
       else o
+    -- ... and what the SPECIES SECTIONS and the histories say about every species node: declared genes, and families that
+    -- start there + declared genes that no family references (theorem C09_leaf_profile_from_dataset)
+    let o := if want.contains "profiles" && !hs.isEmpty then
+        T.leafTaxa.foldl (fun o t =>
+          if t.isEmpty then o else
+          o.put "hleaf" (taxS t ++ "=" ++ toString (declaredAtL T nm t inp.species).length ++ "," ++
+            toString ((hs.filter fun f => f.1 == t).length + (unreferencedAtL T nm t inp.species hs).length))) o
+      else o
     let (o, H?) := match load T nm inp with
       | .error err => (o.put "load" ("err:" ++ err.toStr), none)
       | .ok H =>
